@@ -12,6 +12,8 @@ type Settings struct {
 	ByMood   map[Mood]int
 	ByUnit   map[unit.Unit]bool
 	Flags    map[bool]int `json:"-" gomacro-data:"ignore"`
+	Grade    Grade
+	Grades   [3]Grade
 	Single   Single
 	Sparse   Sparse
 	Skipped  []int `gomacro-data:"ignore"`
